@@ -111,10 +111,7 @@ func main() {
 	if id == "" || (tier != "quick" && tier != "thorough") {
 		die(2, "usage: check <id> [quick|thorough] [--replay file]")
 	}
-	sp, ok := specs[id]
-	if !ok {
-		die(2, "no check registered for %s", id)
-	}
+	sp := specs[id] // zero value: no instrumentation, default budgets
 	seed, _ := strconv.Atoi(os.Getenv("VERIF_SEED"))
 	t0 := time.Now()
 
